@@ -27,6 +27,7 @@ import (
 	"strings"
 	"sync"
 	"time"
+	"unicode"
 
 	"github.com/hashicorp/go-hclog"
 	"github.com/hashicorp/raft"
@@ -41,6 +42,15 @@ type Seg struct {
 	K, M string
 	B    []byte
 	D    string // ok | flip | neutral | cut (mirrors the spec; used only to pick enabled faults)
+	// Lines: only for the content of SHA256SUMS - the checksum lines it decodes to (spec field ls)
+	Lines []Line
+}
+
+// Line is one checksum line: N = meta | state | x (anything else / unparseable), Dg = ok (the saved
+// SHA-256 of that member) | wrong.  Raw is the text of the line (valid while the region is intact).
+type Line struct {
+	N, Dg string
+	Raw   string
 }
 
 // Fault is one fault record of the spec (Archive!Fault).
@@ -197,7 +207,6 @@ type Base struct {
 	Gz        []byte // pristine gzip-wrapped archive as the real writer path produced it
 	SumsFirst string // meta | state : order of the lines in SHA256SUMS (Go map order in hashList.Encode)
 	digests   map[string][32]byte
-	sumsOrig  []byte
 }
 
 func (b *Base) Info() map[string]any {
@@ -287,11 +296,14 @@ func (b *Base) finish(tarBytes []byte) error {
 	}
 	b.Tar = segs
 	b.digests = map[string][32]byte{"meta.json": sha256.Sum256(segs[1].B), "state.bin": sha256.Sum256(segs[4].B)}
-	b.sumsOrig = append([]byte(nil), segs[7].B...)
-	if bytes.Contains(segs[7].B, []byte("meta.json\n")) && bytes.Index(segs[7].B, []byte("meta.json")) < bytes.Index(segs[7].B, []byte("state.bin")) {
-		b.SumsFirst = "meta"
-	} else {
-		b.SumsFirst = "state"
+	ls := b.DecodeLines(segs[7].B)
+	if len(ls) != 2 || ls[0].Dg != "ok" || ls[1].Dg != "ok" || ls[0].N == ls[1].N || ls[0].N == "x" || ls[1].N == "x" {
+		return fmt.Errorf("base %s: SHA256SUMS does not decode to one correct line per member: %q", b.ID, segs[7].B)
+	}
+	segs[7].Lines = ls
+	b.SumsFirst = ls[0].N
+	if h := reframeHdr(segs[6].B, len(segs[7].B)); !bytes.Equal(h, segs[6].B) {
+		return fmt.Errorf("base %s: cannot reproduce the writer's tar header (size / checksum encoding differs)", b.ID)
 	}
 	if _, err := ParseGz(b.Gz); err != nil {
 		return err
@@ -477,34 +489,142 @@ func (w *World) NewBaseViaSnapshotNew(id string, payload []byte, kind string) (*
 
 // ---------------------------------------------------------------- faults on bytes
 
-// SumsStatus is the reference decoder of the SHA256SUMS text format ("<64 hex>  <name>\n"),
-// independent of archive.go: intact = bytes unchanged; neutral = different bytes that still list
-// exactly meta.json and state.bin with their original SHA-256; damaging = anything else.
-func (b *Base) SumsStatus(content []byte) string {
-	if bytes.Equal(content, b.sumsOrig) {
-		return "intact"
+// DecodeLines is the reference decoder of the SHA256SUMS text format ("<64 hex>  <name>\n"),
+// independent of archive.go.  Per line: optional white space, a run of hex digits, optional white
+// space, one name token; the rest of the line is ignored.  The line is (n, ok) when the name is an
+// expected member and the hex run is exactly its saved SHA-256, (n, wrong) when only the name is,
+// x otherwise (also for empty / unparseable lines).
+func (b *Base) DecodeLines(content []byte) []Line {
+	parts := strings.Split(string(content), "\n")
+	if parts[len(parts)-1] == "" {
+		parts = parts[:len(parts)-1]
 	}
-	lines := strings.Split(string(content), "\n")
-	if lines[len(lines)-1] == "" {
-		lines = lines[:len(lines)-1]
-	}
-	seen := map[string]bool{}
-	for _, l := range lines {
-		f := strings.Fields(l)
-		if len(f) != 2 {
-			return "damaging"
+	out := make([]Line, 0, len(parts))
+	for _, l := range parts {
+		rest := strings.TrimLeftFunc(l, unicode.IsSpace)
+		h := 0
+		for h < len(rest) && strings.IndexByte("0123456789abcdefABCDEF", rest[h]) >= 0 {
+			h++
 		}
-		d, err := hex.DecodeString(f[0])
-		want, ok := b.digests[f[1]]
-		if err != nil || !ok || !bytes.Equal(d, want[:]) {
-			return "damaging"
+		hexrun := rest[:h]
+		rest = strings.TrimLeftFunc(rest[h:], unicode.IsSpace)
+		name := rest
+		if i := strings.IndexFunc(rest, unicode.IsSpace); i >= 0 {
+			name = rest[:i]
 		}
-		seen[f[1]] = true
+		ln := Line{N: nameClass(name), Dg: "wrong", Raw: l}
+		if ln.N == "sums" {
+			ln.N = "x"
+		}
+		if ln.N != "x" {
+			want := b.digests[name]
+			if d, err := hex.DecodeString(hexrun); err == nil && bytes.Equal(d, want[:]) {
+				ln.Dg = "ok"
+			}
+		}
+		out = append(out, ln)
 	}
-	if len(seen) != 2 {
-		return "damaging"
+	return out
+}
+
+func sameLines(a, b []Line) bool {
+	if len(a) != len(b) {
+		return false
 	}
-	return "neutral"
+	for i := range a {
+		if a[i].N != b[i].N || a[i].Dg != b[i].Dg {
+			return false
+		}
+	}
+	return true
+}
+
+// LineEffect names the effect of a byte flip on the decoded lines in the spec's terms
+// (Archive!SumsFlipFaults): neutral | wrong(j) | x(j) | ok(j) | drop(j); "" = none of these.
+func LineEffect(old, neu []Line) (string, int) {
+	if sameLines(old, neu) {
+		return "neutral", 0
+	}
+	if len(old) == len(neu) {
+		j := -1
+		for i := range old {
+			if old[i].N != neu[i].N || old[i].Dg != neu[i].Dg {
+				if j >= 0 {
+					return "", 0
+				}
+				j = i
+			}
+		}
+		o, n := old[j], neu[j]
+		switch {
+		case o.N != "x" && n.N == "x":
+			return "x", j + 1
+		case o.N == n.N && o.Dg == "ok" && n.Dg == "wrong":
+			return "wrong", j + 1
+		case o.N == n.N && o.Dg == "wrong" && n.Dg == "ok":
+			return "ok", j + 1
+		}
+		return "", 0
+	}
+	if len(neu) == len(old)-1 {
+		for j := 1; j < len(old); j++ {
+			if sameLines(append(append([]Line(nil), old[:j]...), old[j+1:]...), neu) {
+				return "drop", j + 1
+			}
+		}
+	}
+	return "", 0
+}
+
+// reframeHdr returns the ustar header with a new size (size field and header checksum re-encoded
+// the way archive/tar's Writer does: 11 octal digits + NUL; 6 octal digits + NUL + space).
+func reframeHdr(hdr []byte, size int) []byte {
+	h := append([]byte(nil), hdr...)
+	copy(h[124:136], fmt.Sprintf("%011o\x00", size))
+	copy(h[148:156], "        ")
+	sum := 0
+	for _, c := range h {
+		sum += int(c)
+	}
+	copy(h[148:156], fmt.Sprintf("%06o\x00 ", sum))
+	return h
+}
+
+var lineXNames = []string{"extra.bin", "META.JSON", "./state.bin", "state.bin.bak", "SHA256SUMS", "méta.json", "sha256sums"}
+
+// NumLineVariants: concrete variants of the line faults addx / addwrong
+func NumLineVariants(op string) int {
+	switch op {
+	case "addx":
+		return len(lineXNames)
+	case "addwrong":
+		return 3
+	}
+	return 1
+}
+
+var memberFile = map[string]string{"meta": "meta.json", "state": "state.bin"}
+
+// wrongLine: a line for member n whose digest is not the saved one: 0 = the OTHER member's digest,
+// 1 = all zeros, 2 = the saved digest with the low bit of one hex character changed
+func (b *Base) wrongLine(n string, v int) string {
+	good := b.digests[memberFile[n]]
+	hx := hex.EncodeToString(good[:])
+	switch v % 3 {
+	case 0:
+		o := b.digests[memberFile[map[string]string{"meta": "state", "state": "meta"}[n]]]
+		hx = hex.EncodeToString(o[:])
+	case 1:
+		hx = strings.Repeat("0", 64)
+	default:
+		for i := 0; i < len(hx); i++ {
+			if c := hx[i] ^ 1; strings.IndexByte("0123456789abcdef", c) >= 0 {
+				hx = hx[:i] + string(c) + hx[i+1:]
+				break
+			}
+		}
+	}
+	return hx + "  " + memberFile[n]
 }
 
 var xNames = []string{"extra.bin", "META.JSON", "./state.bin", "state.bin.bak", "SHA256SUMS.old", "méta.json", "state.bin ", "sha256sums"}
@@ -618,7 +738,7 @@ func (w *World) Apply(b *Base, a *Arch, f Fault, p P) error {
 	if !tarLevel && a.Wrap != "gz" {
 		return Drift{"gzip-level fault on a plain archive"}
 	}
-	structural := f.T == "remove" || f.T == "reorder" || f.T == "inject"
+	structural := f.T == "remove" || f.T == "reorder" || f.T == "inject" || f.T == "sumsline"
 	if structural && a.Trunc {
 		return Drift{"structural fault after a truncation"}
 	}
@@ -638,13 +758,17 @@ func (w *World) Apply(b *Base, a *Arch, f Fault, p P) error {
 		nb[p.Pos] ^= byte(p.Pat)
 		s.B = nb
 		if f.T == "flip" && s.K == "content" && s.M == "sums" {
-			st := b.SumsStatus(nb)
-			want := map[string]string{"neutral": "neutral", "damaging": "flip"}[f.Fx]
-			got := map[string]string{"neutral": "neutral", "damaging": "flip", "intact": "ok"}[st]
-			if want == "" || got != want || (s.D == "flip" && want != "flip") {
-				return Drift{fmt.Sprintf("SHA256SUMS flip labelled %q decodes as %q", f.Fx, st)}
+			neu := b.DecodeLines(nb)
+			fx, j := LineEffect(s.Lines, neu)
+			if fx == "" || fx != f.Fx || j != f.Src {
+				return Drift{fmt.Sprintf("SHA256SUMS flip labelled %s(%d) has effect %q(%d)", f.Fx, f.Src, fx, j)}
 			}
-			s.D = want
+			s.Lines = neu
+			if fx != "neutral" {
+				s.D = "flip"
+			} else if s.D == "ok" {
+				s.D = "neutral"
+			}
 		} else {
 			s.D = "flip"
 		}
@@ -668,6 +792,67 @@ func (w *World) Apply(b *Base, a *Arch, f Fault, p P) error {
 			a.Gz = a.Gz[:f.I]
 			a.GzPhase = true
 		}
+	case "sumsline":
+		if f.I < 2 || f.I >= len(a.Tar) {
+			return Drift{"sumsline: region index"}
+		}
+		s := &a.Tar[f.I-1]
+		if err := checkLabel(f, *s); err != nil {
+			return err
+		}
+		if s.D != "ok" || a.Tar[f.I-2].D != "ok" || a.Tar[f.I].D != "ok" || a.Tar[f.I-2].K != "hdr" || a.Tar[f.I].K != "pad" {
+			return Drift{"sumsline: member not intact"}
+		}
+		ls := append([]Line(nil), s.Lines...)
+		j := f.Src - 1
+		need := func(ok bool) error {
+			if !ok {
+				return Drift{"sumsline: line index"}
+			}
+			return nil
+		}
+		switch f.Fx {
+		case "dup":
+			if err := need(j >= 0 && j < len(ls)); err != nil {
+				return err
+			}
+			ls = append(ls[:j+1], append([]Line{ls[j]}, ls[j+1:]...)...)
+		case "copy", "swap":
+			if err := need(len(f.Perm) == 1 && j >= 0 && j < len(ls) && f.Perm[0] >= 1 && f.Perm[0] <= len(ls)); err != nil {
+				return err
+			}
+			k := f.Perm[0] - 1
+			if f.Fx == "copy" {
+				ls[j] = ls[k]
+			} else {
+				ls[j], ls[k] = ls[k], ls[j]
+			}
+		case "drop":
+			if err := need(j >= 0 && j < len(ls)); err != nil {
+				return err
+			}
+			ls = append(ls[:j], ls[j+1:]...)
+		case "addx":
+			ls = append(ls, Line{N: "x", Dg: "wrong", Raw: strings.Repeat("5a", 32) + "  " + lineXNames[p.Var%len(lineXNames)]})
+		case "addwrong":
+			if err := need(j >= 0 && j < len(ls) && ls[j].N != "x"); err != nil {
+				return err
+			}
+			ls = append(ls, Line{N: ls[j].N, Dg: "wrong", Raw: b.wrongLine(ls[j].N, p.Var)})
+		default:
+			return Drift{"sumsline: unknown op " + f.Fx}
+		}
+		var txt []byte
+		for _, l := range ls {
+			txt = append(txt, l.Raw...)
+			txt = append(txt, '\n')
+		}
+		if got := b.DecodeLines(txt); !sameLines(got, ls) {
+			return Drift{fmt.Sprintf("sumsline %s: text decodes differently from the abstract lines", f.Fx)}
+		}
+		s.B, s.Lines = txt, ls
+		a.Tar[f.I-2].B = reframeHdr(a.Tar[f.I-2].B, len(txt))
+		a.Tar[f.I].B = make([]byte, (512-len(txt)%512)%512)
 	case "truncat":
 		if f.I < 0 || f.I >= len(a.Tar) {
 			return Drift{"truncat index"}
@@ -909,9 +1094,9 @@ func (w *World) Candidates(b *Base, a *Arch, f Fault, t Tier, r *rand.Rand) ([]P
 			for _, pat := range pats {
 				if sums {
 					probe[pos] ^= byte(pat)
-					st := b.SumsStatus(probe)
+					fx, j := LineEffect(s.Lines, b.DecodeLines(probe))
 					probe[pos] = s.B[pos]
-					if st != f.Fx {
+					if fx != f.Fx || j != f.Src {
 						continue
 					}
 				}
@@ -927,6 +1112,12 @@ func (w *World) Candidates(b *Base, a *Arch, f Fault, t Tier, r *rand.Rand) ([]P
 		var out []P
 		for _, k := range positions(len(s.B), t, r, 1) {
 			out = append(out, P{Keep: k})
+		}
+		return out, nil
+	case "sumsline":
+		out := make([]P, NumLineVariants(f.Fx))
+		for i := range out {
+			out[i] = P{Var: i}
 		}
 		return out, nil
 	case "inject":
